@@ -191,6 +191,15 @@ def color_section(tier, seed):
                 cases.append(('value', v, (4, w, w, None, 1000, 0)))
     for d in ann_docs(rng, 150 if tier == 'quick' else 2000):
         cases.append(('doc', d, rng.choice([5, 20, 79])))
+    # every nesting of three annotations (token / non-token / comment in any order) with text before and after each level:
+    # after an inner annotation ends, the text that follows must be back in the style of the enclosing *token*, however many
+    # non-token annotations lie in between
+    anns3 = [('tok', 5), ('tok', 12), ('oth', 1), ('cmt', 'x y')]
+    for a in anns3:
+        for b in anns3:
+            for c in anns3:
+                d = ('ann', a, ('cat', [('t', 'p'), ('ann', b, ('cat', [('t', 'q'), ('ann', c, ('t', 'r')), ('t', 's')])), ('t', 'u')]))
+                cases.append(('doc', d, 79))
     # quick: every case under 6 styles (the two bundled + a rotating sample), every style on a core set; thorough: all x all
     chunks = []
     core = cases[:16]
